@@ -143,6 +143,21 @@ Definition rx_spec_step (st : rxspec) (f : frame) : rxspec :=
 Definition rx_spec (h : list frame) : rxspec := fold_left rx_spec_step h (false, None, []).
 Definition deliver_spec (h : list frame) : list (N * bytes) := snd (rx_spec h).
 
+Definition sp_sess (st : rxspec) : bool := fst (fst st).
+Definition sp_cur (st : rxspec) : option (N * bytes) := snd (fst st).
+Definition sp_out (st : rxspec) : list (N * bytes) := snd st.
+
+(** A delivery as announced by the "receive finished" signal: (id, length). *)
+Definition dlen (p : N * bytes) : N * N := (fst p, N.of_nat (length (snd p))).
+
+(** What a frame contributes to transfer [xid]; START frames; END frames of [xid]. *)
+Definition contrib (xid : N) (f : frame) : bytes :=
+  match f with FMsg (MXferSeg _ i _ d) => if i =? xid then d else [] | _ => [] end.
+Definition is_start (f : frame) : bool :=
+  match f with FMsg (MXferSeg fl _ _ _) => has_start fl | _ => false end.
+Definition is_end_of (xid : N) (f : frame) : bool :=
+  match f with FMsg (MXferSeg fl i _ _) => has_end fl && (i =? xid) | _ => false end.
+
 (** ** Events *)
 Definition recv_finished_events (tr : list event) : list (N * N) :=
   flat_map (fun e => match e with
